@@ -296,12 +296,18 @@ pub fn case(idx: u64, rng: &mut Rng, ctx: &Ctx) -> CaseOut {
     let gw4b = v4(192, 168, 1, 253);
     let gw6 = v6([0xfd00, 0, 0, 0, 0, 0, 0, 0xfe]);
     let route_exp: Option<Micros> = if rng.bool() { Some(rng.range(5, 200) as Micros * SEC) } else { None };
+    let pref_until: Option<Micros> = match rng.below(3) {
+        0 => None,
+        1 => Some(rng.range(1, 5) as Micros * SEC),
+        _ => route_exp.map(|e| e / 2),
+    };
     h.iface.routes_mut().update(|v| {
         let _ = v.push(Route::new_ipv4_gateway(Ipv4Address::new(192, 168, 1, 254)));
         let _ = v.push(Route {
             cidr: IpCidr::new(IpAddress::Ipv4(Ipv4Address::new(172, 16, 0, 0)), 12),
             via_router: IpAddress::Ipv4(Ipv4Address::new(192, 168, 1, 253)),
-            preferred_until: None,
+            // a route stays in use until it expires, also after its preferred lifetime ran out
+            preferred_until: pref_until.map(Instant::from_micros),
             expires_at: route_exp.map(Instant::from_micros),
         });
     });
